@@ -47,6 +47,13 @@ def ramp(x, y, z, *, t, rate=8.0):
     return min(1.0, rate * t)
 
 
+def dyn_eps(r, *, t):
+    """a critical temperature that varies in space and in time (keyword-only t: re-evaluated at every step)"""
+    r = np.atleast_2d(r)
+    return 1.0 - 0.6 * np.exp(-((r[:, 0] - 0.4) ** 2 + (r[:, 1] + 0.2) ** 2)) * (0.3 + min(1.0, 9.0 * t)) / 1.3 if r.shape[0] > 1 else float(
+        1.0 - 0.6 * np.exp(-((r[0, 0] - 0.4) ** 2 + (r[0, 1] + 0.2) ** 2)) * (0.3 + min(1.0, 9.0 * t)) / 1.3)
+
+
 def vec(x, y, z, *, B=0.5):
     return np.stack([-B * y / 2, B * x / 2, np.zeros_like(x)], axis=1)
 
@@ -89,6 +96,7 @@ def main():
         cur = dict(zip(["source", "drain", "top", "bottom"], cfg["currents4"]))
     elif cfg.get("current"):
         cur = {"source": cfg["current"], "drain": -cfg["current"]}
+    EPS = dict(disorder_epsilon=dyn_eps) if cfg.get("dyn_eps") else {}
     out = cfg.get("out")
     if out and os.path.exists(out):
         os.remove(out)
@@ -104,7 +112,7 @@ def main():
         # a short run whose final state seeds the runs that are compared (the seed object is reused below)
         seed = tdgl.solve(dev, runs.options(solve_time=0.03, dt_init=cfg.get("dt", 5e-3), adaptive=False, save_every=3, include_screening=cfg.get("screening", False),
                                             screening_tolerance=1e-3), applied_vector_potential=A, terminal_currents=cur)
-    sol = tdgl.solve(dev, opts, applied_vector_potential=A, terminal_currents=cur, seed_solution=seed)
+    sol = tdgl.solve(dev, opts, applied_vector_potential=A, terminal_currents=cur, seed_solution=seed, **EPS)
     if out:
         res["file"] = hash_file(sol.path)
     fin = lambda s_: {k: sha(getattr(s_.tdgl_data, k)) for k in ("psi", "mu", "supercurrent", "normal_current", "induced_vector_potential")}
@@ -115,7 +123,7 @@ def main():
     # "repeating a simulation with identical inputs": once more in this same process, with the same objects
     import dataclasses
     opts2 = dataclasses.replace(opts, output_file=None)
-    sol2 = tdgl.solve(dev, opts2, applied_vector_potential=A, terminal_currents=cur, seed_solution=seed)
+    sol2 = tdgl.solve(dev, opts2, applied_vector_potential=A, terminal_currents=cur, seed_solution=seed, **EPS)
     res["repeat_in_process"] = {"final": fin(sol2), "dt": sha(sol2.dynamics.dt)}
     res["first_in_process"] = {"final": fin(sol), "dt": res["dt"]}
     # the parallel kernels on a fixed random input
